@@ -598,9 +598,9 @@ class Firewall(Router, discriminator="firewall"):
                         src_port=None if not (p := r_cfg.get("src_port")) else PORT_LOOKUP[p],
                         dst_port=None if not (p := r_cfg.get("dst_port")) else PORT_LOOKUP[p],
                         protocol=None if not (p := r_cfg.get("protocol")) else PROTOCOL_LOOKUP[p],
-                        src_ip_address=r_cfg.get("src_ip"),
+                        src_ip_address=r_cfg.get("src_ip", r_cfg.get("src_ip_address")),
                         src_wildcard_mask=r_cfg.get("src_wildcard_mask"),
-                        dst_ip_address=r_cfg.get("dst_ip"),
+                        dst_ip_address=r_cfg.get("dst_ip", r_cfg.get("dst_ip_address")),
                         dst_wildcard_mask=r_cfg.get("dst_wildcard_mask"),
                         position=r_num,
                     )
@@ -613,9 +613,9 @@ class Firewall(Router, discriminator="firewall"):
                         src_port=None if not (p := r_cfg.get("src_port")) else PORT_LOOKUP[p],
                         dst_port=None if not (p := r_cfg.get("dst_port")) else PORT_LOOKUP[p],
                         protocol=None if not (p := r_cfg.get("protocol")) else PROTOCOL_LOOKUP[p],
-                        src_ip_address=r_cfg.get("src_ip"),
+                        src_ip_address=r_cfg.get("src_ip", r_cfg.get("src_ip_address")),
                         src_wildcard_mask=r_cfg.get("src_wildcard_mask"),
-                        dst_ip_address=r_cfg.get("dst_ip"),
+                        dst_ip_address=r_cfg.get("dst_ip", r_cfg.get("dst_ip_address")),
                         dst_wildcard_mask=r_cfg.get("dst_wildcard_mask"),
                         position=r_num,
                     )
@@ -628,9 +628,9 @@ class Firewall(Router, discriminator="firewall"):
                         src_port=None if not (p := r_cfg.get("src_port")) else PORT_LOOKUP[p],
                         dst_port=None if not (p := r_cfg.get("dst_port")) else PORT_LOOKUP[p],
                         protocol=None if not (p := r_cfg.get("protocol")) else PROTOCOL_LOOKUP[p],
-                        src_ip_address=r_cfg.get("src_ip"),
+                        src_ip_address=r_cfg.get("src_ip", r_cfg.get("src_ip_address")),
                         src_wildcard_mask=r_cfg.get("src_wildcard_mask"),
-                        dst_ip_address=r_cfg.get("dst_ip"),
+                        dst_ip_address=r_cfg.get("dst_ip", r_cfg.get("dst_ip_address")),
                         dst_wildcard_mask=r_cfg.get("dst_wildcard_mask"),
                         position=r_num,
                     )
@@ -643,9 +643,9 @@ class Firewall(Router, discriminator="firewall"):
                         src_port=None if not (p := r_cfg.get("src_port")) else PORT_LOOKUP[p],
                         dst_port=None if not (p := r_cfg.get("dst_port")) else PORT_LOOKUP[p],
                         protocol=None if not (p := r_cfg.get("protocol")) else PROTOCOL_LOOKUP[p],
-                        src_ip_address=r_cfg.get("src_ip"),
+                        src_ip_address=r_cfg.get("src_ip", r_cfg.get("src_ip_address")),
                         src_wildcard_mask=r_cfg.get("src_wildcard_mask"),
-                        dst_ip_address=r_cfg.get("dst_ip"),
+                        dst_ip_address=r_cfg.get("dst_ip", r_cfg.get("dst_ip_address")),
                         dst_wildcard_mask=r_cfg.get("dst_wildcard_mask"),
                         position=r_num,
                     )
@@ -658,9 +658,9 @@ class Firewall(Router, discriminator="firewall"):
                         src_port=None if not (p := r_cfg.get("src_port")) else PORT_LOOKUP[p],
                         dst_port=None if not (p := r_cfg.get("dst_port")) else PORT_LOOKUP[p],
                         protocol=None if not (p := r_cfg.get("protocol")) else PROTOCOL_LOOKUP[p],
-                        src_ip_address=r_cfg.get("src_ip"),
+                        src_ip_address=r_cfg.get("src_ip", r_cfg.get("src_ip_address")),
                         src_wildcard_mask=r_cfg.get("src_wildcard_mask"),
-                        dst_ip_address=r_cfg.get("dst_ip"),
+                        dst_ip_address=r_cfg.get("dst_ip", r_cfg.get("dst_ip_address")),
                         dst_wildcard_mask=r_cfg.get("dst_wildcard_mask"),
                         position=r_num,
                     )
@@ -673,9 +673,9 @@ class Firewall(Router, discriminator="firewall"):
                         src_port=None if not (p := r_cfg.get("src_port")) else PORT_LOOKUP[p],
                         dst_port=None if not (p := r_cfg.get("dst_port")) else PORT_LOOKUP[p],
                         protocol=None if not (p := r_cfg.get("protocol")) else PROTOCOL_LOOKUP[p],
-                        src_ip_address=r_cfg.get("src_ip"),
+                        src_ip_address=r_cfg.get("src_ip", r_cfg.get("src_ip_address")),
                         src_wildcard_mask=r_cfg.get("src_wildcard_mask"),
-                        dst_ip_address=r_cfg.get("dst_ip"),
+                        dst_ip_address=r_cfg.get("dst_ip", r_cfg.get("dst_ip_address")),
                         dst_wildcard_mask=r_cfg.get("dst_wildcard_mask"),
                         position=r_num,
                     )
